@@ -116,11 +116,13 @@ def sort_of(ty):
 
 class V:
     """A typed symbolic value."""
-    __slots__ = ('ty', 't')
+    __slots__ = ('ty', 't', 'origin')
 
-    def __init__(self, ty, t):
+    def __init__(self, ty, t, origin=None):
         self.ty = ty
         self.t = t
+        self.origin = origin      # 'Class.attr' / 'module.name' when the value IS a shared
+                                  # module- or class-level mutable object (aliasing matters)
 
     def __repr__(self):
         return 'V(%r, %s)' % (self.ty, self.t)
@@ -172,6 +174,13 @@ def const_to_v(c):
         if not c:
             t = z3.Empty(z3.SeqSort(z3.StringSort()))
         return V(List(STR), t)
+    if isinstance(c, list) and c and all(isinstance(x, tuple) and len(x) == 2 and
+                                         all(isinstance(y, str) for y in x) for x in c):
+        t = None
+        for a, b in c:
+            u = z3.Unit(SS.mkss(z3.StringVal(a), z3.StringVal(b)))
+            t = u if t is None else z3.Concat(t, u)
+        return V(List(SS_T), t)
     if isinstance(c, dict):
         return V(REC, {k: const_to_v(x) for k, x in c.items()})
     if isinstance(c, tuple):
